@@ -149,6 +149,37 @@ def run(prop, tier, seed):
             continue
         if not err <= 1e-8:
             viol.append((f"Operation({nm}, {kw}).operator differs from the library matrix {gate} at {dims} by {err:.3e}", {"op": nm, "kw": repr(kw), "dims": dims}))
+    # the operator is a function of (type, parameters, requested dimensions) only: the same Operation object
+    # asked at another dimension list -- in particular one with the same product -- must return what a
+    # fresh object returns there (model: PW.Ops builds every operator from its dimension list)
+    import photon_weave._math.ops as O
+
+    def bs_expression(eta):
+        ctx = {"a": lambda d: O.annihilation_operator(d[0]), "ad": lambda d: O.creation_operator(d[0]),
+               "b": lambda d: O.annihilation_operator(d[1]), "bd": lambda d: O.creation_operator(d[1])}
+        from photon_weave.state.fock import Fock
+        return Operation(CO.Expression, expr=("expm", ("s_mult", 1j, eta, ("add", ("kron", "ad", "b"), ("kron", "a", "bd")))), state_types=(Fock, Fock), context=ctx)
+
+    for mk, seqs in [(lambda: bs_expression(0.7), [([2, 3], [3, 2]), ([2, 6], [3, 4]), ([4, 1], [2, 2]), ([3, 3], [3, 3])]),
+                     (lambda: Operation(FO.Displace, alpha=0.3 + 0.2j), [([4], [6]), ([6], [4])]),
+                     (lambda: Operation(FO.PhaseShift, phi=0.9), [([3], [5]), ([5], [3])])]:
+        for d1, d2 in seqs:
+            n += 1
+            kinds["Operation:reuse"] = kinds.get("Operation:reuse", 0) + 1
+            try:
+                op, fresh = mk(), mk()
+                op.dimensions = list(d1)
+                _ = np.asarray(op.operator)
+                op.dimensions = list(d2)
+                got = np.asarray(op.operator).astype(complex)
+                fresh.dimensions = list(d2)
+                want = np.asarray(fresh.operator).astype(complex)
+                err = np.abs(got - want).max() if got.shape == want.shape else float("inf")
+            except Exception as ex:
+                viol.append((f"Operation.operator requested at {d2} after {d1} raised {type(ex).__name__}: {ex}", {"dims": [d1, d2]}))
+                continue
+            if not err <= 1e-12:
+                viol.append((f"Operation.operator requested at dimensions {d2} after a request at {d1} differs from a fresh operation's operator at {d2} by {err:.3e}", {"dims": [d1, d2]}))
     ncf, bad = closed_forms(rng, thorough)
     viol += bad
     n += ncf
